@@ -26,13 +26,23 @@ def levels(sc):
     return [[[-(h * (2 * N - 2 * k - 1)) // (2 * N) for k in range(N)] for h in row] for row in sc["H"]]
 
 
+def file_names(sc, nfiles):
+    """forcing file names in time order; the forcing sorts its files by name, so the lexicographic order must be the time order.
+    "unpadded" names differ in length (f_10.nc < f_11.nc < f_9.nc): shortest-first or numeric ordering would pick another first file."""
+    if sc.get("naming") == "unpadded" and nfiles >= 2:
+        return [f"f_{10 + k}.nc" for k in range(nfiles - 1)] + ["f_9.nc"]
+    return [f"f_{n:02d}.nc" for n in range(nfiles)]
+
+
 def write_files(sc, work):
     import numpy as np
     N, jmax, imax = sc["N"], sc["jmax"], sc["imax"]
     names = []
     fnum = sc.get("frame_numbers") or list(range(len(sc["ftimes"])))
     sign = sc.get("field_sign", 1)
-    for n, (a, b) in enumerate(partition(len(sc["ftimes"]), sc["cuts"])):
+    parts = partition(len(sc["ftimes"]), sc["cuts"])
+    fnames = file_names(sc, len(parts))
+    for n, (a, b) in enumerate(parts):
         U, V, S = formula_fields(sc["fm"], fnum[a:b], N, jmax, imax, scalar=sc["hasscal"])
         if sc.get("levels_uv"):                      # per-level constant flow (TLC-generated composition scenarios)
             for k, (uu, vv) in enumerate(sc["levels_uv"]):
@@ -44,9 +54,10 @@ def write_files(sc, work):
             import numpy as _np
             kk, jj, ii = _np.meshgrid(_np.arange(N + 1), _np.arange(jmax), _np.arange(imax), indexing="ij")
             W = _np.stack([((f + kk + ii + 2 * jj) % 5 - 2) / 64.0 for f in fnum[a:b]])
-        name = os.path.join(work, f"f_{n:02d}.nc")
+        name = os.path.join(work, fnames[n])
         make_roms(name, imax=imax, jmax=jmax, N=N, times=sc["ftimes"][a:b], mask=np.array(sc["M"], float),
-                  h=np.array(sc["H"], float), hc=0.0, dx=sc.get("dx", 128.0), dy=sc.get("dy"),
+                  h=np.array(sc["H"], float), hc=0.0,
+                  dx=sc.get("dx", 128.0) * (2.0 if (n > 0 and sc.get("grid_variant_in_later_files")) else 1.0), dy=sc.get("dy"),
                   U=U, V=V, S=S, W=W, pack=(2.0 ** -10 if sc["pack"] else None),
                   spack=((1.0, 0.0) if sc.get("spack") else None))
         names.append(name)
@@ -73,10 +84,16 @@ def force_trace(sc):
         Z = np.array(sc["z"], float)
         force = Forcing(dict(time=timer, grid=grid, state=state), os.path.join(work, "f_*.nc"),
                         extra_forcing=["temp"] if sc["hasscal"] else None)
-        state.append(X=X, Y=Y, Z=Z)
+        late = int(sc.get("late", 0))          # the state stays empty for the first `late` steps (forcing must advance anyway)
+        if late == 0:
+            state.append(X=X, Y=Y, Z=Z)
         for _ in range(timer.Nsteps):
             timer.update()
+            if late and timer.step == late:
+                state.append(X=X, Y=Y, Z=Z)
             force.update()
+            if late and timer.step < late:
+                continue
             e = dict(ev="obs", step=int(timer.step), x=sc["xq"], y=sc["yq"], z=sc["z"], den=DEN)
             off = False
             for key, fr in (("0", 0.0), ("1", 0.5), ("2", 1.0)):
@@ -193,6 +210,7 @@ def time_scenario(rng):
     inrun = [s for s in fs if 0 <= s < (b - a)]
     return dict(kind="time", dt=dt, imax=imax, jmax=jmax, N=N, ftimes=ftimes, cuts=cuts, start=start, stop=stop, rev=rev,
                 H=H, M=M, fm=fm, pack=rng.random() < 0.3, hasscal=rng.random() < 0.7, subgrid=None, xq=xq, yq=yq, z=z,
+                late=(rng.randrange(1, b - a) if (b - a) >= 2 and rng.random() < 0.25 else 0),
                 cls=dict(rev=rev, multifile=len(cuts) > 0, adjacent=any(g == 1 for g in gaps), frame_at_start=(0 in fs),
                          handovers=len([s for s in inrun if s > 0]), one_per_file=len(cuts) == nfr - 1))
 
